@@ -229,10 +229,11 @@ Fixpoint write_nodes_top (start lvl : nat) (l : list node) : bytes :=
   end.
 
 Fixpoint last_line (s acc : bytes) : bytes := match s with [] => rev acc | b :: r => if Byte.eqb b x0a then last_line r [] else last_line r (b :: acc) end.
-(* parser/v2/types.go endsWithComment: strings.HasPrefix(strings.TrimLeft(lastLine, " \t"), "//") - the comment may be
-   indented in the text as read; gofmt prints it at the start of the line (48881af) *)
+(* parser/v2/types.go endsWithComment: strings.HasPrefix(strings.TrimLeft(lastLine, " \t\r"), "//") - the comment may be
+   indented in the text as read, or stand behind a carriage return; gofmt prints it at the start of the line
+   (48881af, 0276e15) *)
 Fixpoint trim_left_blanks (s : bytes) : bytes :=
-  match s with b :: r => if Byte.eqb b x20 || Byte.eqb b x09 then trim_left_blanks r else s | [] => [] end.
+  match s with b :: r => if Byte.eqb b x20 || Byte.eqb b x09 || Byte.eqb b x0d then trim_left_blanks r else s | [] => [] end.
 Definition ends_with_comment (v : bytes) : bool := has_prefix (bs "//") (trim_left_blanks (last_line v [])).
 
 Definition write_fnode (n : fnode) : bytes :=
